@@ -213,10 +213,17 @@ func (l c13Line) text() string {
 		}
 		return "setoption name Ponder value false"
 	default:
-		if l.c%2 == 0 {
+		// lines without any effect on the protocol state: debug on / off, an EMPTY line and a line of blanks
+		// (seeded change C13-I indexed the first word of a line received during a search without a guard)
+		switch l.c % 4 {
+		case 0:
 			return "debug on"
+		case 1:
+			return "debug off"
+		case 2:
+			return ""
 		}
-		return "debug off"
+		return "  \t "
 	}
 }
 
@@ -964,7 +971,7 @@ func c13GenScript(rng *hx.Rng, mode int64) []c13Line {
 				add(c13Stop, 0, 0)
 				need = needNone
 			default:
-				add(c13Nop, 0, int64(rng.Intn(2)))
+				add(c13Nop, 0, int64(rng.Intn(4)))
 			}
 		}
 		if last && rng.Chance(0.5) {
@@ -1041,7 +1048,7 @@ func c13Input(c *c13Case, sweep string) hx.Input {
 		case c13Stop, c13Isready, c13Ponderhit, c13Quit, c13Nop:
 			if inSearch {
 				racing = true
-				kinds["during-or-after-search:"+l.text()[:4]] = true
+				kinds["during-or-after-search:"+(l.text() + "(blank)")[:4]] = true
 			}
 		default:
 			inSearch = false
@@ -1197,7 +1204,7 @@ func genC13(rng *hx.Rng, n int, tier string, emit func(hx.Input)) {
 				case r < 11:
 					c.lines = append(c.lines, c13Line{code: c13Isready})
 				case r < 14:
-					c.lines = append(c.lines, c13Line{code: c13Nop, c: int64(rng.Intn(2))})
+					c.lines = append(c.lines, c13Line{code: c13Nop, c: int64(rng.Intn(4))})
 				case r < 15:
 					c.lines = append(c.lines, c13Line{code: c13Stop}) // nothing to stop
 				default:
@@ -1211,7 +1218,7 @@ func genC13(rng *hx.Rng, n int, tier string, emit func(hx.Input)) {
 				case r < 9:
 					c.lines = append(c.lines, c13Line{code: c13Isready})
 				case r < 11:
-					c.lines = append(c.lines, c13Line{code: c13Nop, c: int64(rng.Intn(2))})
+					c.lines = append(c.lines, c13Line{code: c13Nop, c: int64(rng.Intn(4))})
 				case r < 13:
 					c.lines = append(c.lines, c13Line{code: c13Idle, c: long})
 				case r < 14:
